@@ -93,7 +93,7 @@ def rule_r2(chk):
             rng = gen.iter
             rng_ok = isinstance(rng, ast.Call) and dotted(rng.func) == "range" and unparse(rng.args[0]) == "1" \
                 and alg.equal(conv(rng.args[1]), add(sym("order"), num(1)))
-            sl_ok = unparse(lc.elt.value) == "y" and isinstance(c, ast.Slice) \
+            sl_ok = unparse(lc.elt.value) == "y" and isinstance(c, ast.Slice) and c.lower is not None and c.upper is not None \
                 and alg.equal(conv(c.lower), sub(sym("order"), sym(i))) and alg.equal(conv(c.upper), alg.neg(sym(i)))
             ok = rng_ok and sl_ok
             detail = f"lag i in {unparse(rng)}: y[:, {unparse(c.lower)}:{unparse(c.upper)}] (same length as y0, shifted back by i)"
@@ -160,7 +160,16 @@ def rule_r2(chk):
                         return self.ev(node.orelse, env)
                 return super().ev(node, env)
         try:
-            val = RI().ev(u, {k: sym(k) for k in ("y0", "y1", "x", "A", "B", "c")})
+            ri = RI()
+            env_u = {k: sym(k) for k in ("y0", "y1", "x", "A", "B", "c")}
+            val = None
+            for n in sorted((n for n in ast.walk(f) if isinstance(n, (ast.Assign, ast.AugAssign))
+                             and unparse(n.targets[0] if isinstance(n, ast.Assign) else n.target) == "u"), key=lambda n: n.lineno):
+                if isinstance(n, ast.Assign):
+                    val = ri.ev(n.value, env_u)
+                else:
+                    val = ri.binop(alg._BINOPS[type(n.op)], env_u["u"], ri.ev(n.value, env_u), n, env_u)
+                env_u["u"] = val
             want = sub(sub(sub(sym("y0"), alg.app("matmul", sym("A"), sym("y1"))), alg.app("matmul", sym("B"), sym("x"))), sym("c"))
             ok = is_ir(val) and alg.equal(val, want)
             detail = f"u = {alg.show_rat(alg.nf(val)) if is_ir(val) else val}"
@@ -290,7 +299,7 @@ def rule_r5(chk):
             got = sh.env.get("self._companion_T") if meth == "_populate_companion_T" else (sh.returned[0] if getattr(sh, "returned", None) else None)
             results[meth] = got
             ok = not errs and got == want
-            chk.ob("C18-R5", f"red_vars._variants.Variant.{meth}{tag}", ok if got is not dim.TOP and got is not None else None,
+            chk.ob("C18-R5", f"red_vars._variants.Variant.{meth}{tag}", False if errs else (ok if got is not dim.TOP and got is not None else None),
                    f"shape {got} (expected {want})" + (f"; {errs[0]}" if errs else ""), vm.loc(f))
         # exogenous impact: shape produced, and added to the state of np rows
         g = sm.func("_simulate_exogenous_impact")
